@@ -36,6 +36,7 @@ Definition type_is (A B : arr) : bool := kind_eqb (a_kind A) (a_kind B).
 
 Definition is_sparse (A : arr) : bool := match a_kind A with KSp _ _ => true | _ => false end.
 Definition is_npmatrix (A : arr) : bool := match a_kind A with KMat => true | _ => false end.
+Definition is_dok (A : arr) : bool := match a_kind A with KSp _ Dok => true | _ => false end.
 
 (* ---- outcomes of operations that can raise *)
 Inductive res (T : Type) := Ok (v : T) | NotImpl | Err.
@@ -81,14 +82,14 @@ Definition a_add (A B : arr) : res arr :=                          (* x + y *)
   then Ok (mkarr (kind_add (a_kind A) (a_kind B)) (madd (a_val A) (a_val B)))
   else Err.
 (* x + prior_counts with prior_counts a number or an ndarray: scipy refuses sparse + non-zero number
-   (NotImplementedError) and returns a sparse copy for sparse + 0 *)
+   (NotImplementedError) and returns a sparse copy for sparse + 0; the DOK format adds any number
+   itself and stays DOK *)
 Definition a_add_prior (A : arr) (p : prior) : res arr :=
   match p with
   | NoPrior => Err
   | PScalar q =>
-      if is_sparse A && negb (Qeq_bool q 0) then NotImpl
-      else if is_square (a_val A) then Ok (mkarr (a_kind A) (map (map (fun x => x + q)) (a_val A)))
-      else Err
+      if is_sparse A && negb (Qeq_bool q 0) && negb (is_dok A) then NotImpl
+      else Ok (mkarr (a_kind A) (map (map (fun x => x + q)) (a_val A)))
   | PMat P => a_add A (mkarr KArr P)
   end.
 Definition prior_is_none (p : prior) : bool := match p with NoPrior => true | _ => false end.
